@@ -115,7 +115,7 @@ def parse_sidecar(paths: List[str]) -> Sidecar:
             if has_block:
                 j = i + 1
                 buf = []
-                while j < len(lines) and lines[j].rstrip() != '}':
+                while j < len(lines) and lines[j].strip() != '@end':
                     buf.append(lines[j])
                     j += 1
                 if j >= len(lines):
